@@ -6,6 +6,7 @@
 
 #include <stddef.h>
 #include <stdint.h>
+#include <sys/types.h>
 
 /* operation classes */
 enum {
@@ -101,7 +102,8 @@ size_t iom_nobjs(void);
 const iom_obj_t *iom_obj(int id);
 const char *iom_name(int id);
 void iom_mark(int kind, uint64_t a, uint64_t b);
-void iom_pause(int delta);                  /* per-thread: >0 = pass-through */
+void iom_pause(int delta);
+pid_t iom_fork(void);                       /* fork() that is safe while other threads use the interposer */                  /* per-thread: >0 = pass-through */
 
 /* occurrence counters (op class x path class), counted whether or not tracing */
 uint64_t iom_count(int op, int pc);
